@@ -47,12 +47,25 @@ def run(ctx):
     cur = {}
     app = new_app()
 
-    @app.route("/r")
+    @app.route("/r", method=511)
     def handler(req):
         return cur["make"]()
 
+    @app.after_response()
+    def peek(req, res):
+        # a hook that looks at the finished body (as response validators
+        # do); .data is documented to leave the response as it was
+        if cur.get("peek") and hasattr(res, "data"):
+            cur["peeked"] = len(res.data)
+        return res
+    asked = {"n": 0}
+
     def check(label, known_size, sig, detail, expect_nobody=False):
-        ans = call(app, environ(path="/r"))
+        asked["n"] += 1
+        method = ("GET", "HEAD", "POST", "GET", "PUT")[asked["n"] % 5]
+        cur["peek"] = label != "fileobj-raw" and asked["n"] % 3 == 0
+        ans = call(app, environ(method=method, path="/r"))
+        detail = dict(detail, method=method, data_read_by_hook=cur["peek"])
         ctx.case(sig, True, dict(detail, kind=label, status=ans.status))
         ctx.count(label)
         if ans.raised or ans.iter_raised or len(ans.calls) != 1:
@@ -228,7 +241,9 @@ def run(ctx):
         "with a random range; file objects (BytesIO, real file, non-seekable "
         "raw stream) at every offset; generators with declared length; every "
         "status code; no-body classes; built-in 404 pages for path lengths "
-        "0..300; distinct by full case tuple" % maxlen,
+        "0..300; request methods GET/HEAD/POST/PUT in rotation, every third "
+        "response read through .data by an after hook before it is sent; "
+        "distinct by full case tuple" % maxlen,
         assumptions=["a non-seekable stream without fileno has unknown size "
                      "and is outside 'size known'",
                      "user-supplied Content-Length headers are not "
